@@ -107,3 +107,18 @@ Theorem C11_source_DecryptBytes_plaintext_is_the_models :
     <-> decrypt_bytes rsa_oaep rsa_pkcs1 gcm_open cbc_decrypt sha1_hex cert ea = ORet (Ok plain).
 Proof. exact G_DecryptBytes_value_iff. Qed.
 Print Assumptions C11_source_DecryptBytes_plaintext_is_the_models.
+
+(* Source tie for the choice of the decryption key ("on both key APIs"): the translated bodies of getDecryptCert and of the
+   two setters are the model functions of Keys.v (P_Keys.decrypt_key_agrees_with_published is about them) *)
+From V Require Import Time Keys GenPreludeK GenKeys P_GenKeysUnit.
+Theorem C11_source_getDecryptCert_is_the_model : forall parse_cert c now validate,
+  G_getDecryptCert parse_cert c now validate
+  = PVal (match get_decrypt_cert parse_cert validate now c with Ok dc => Ok (Some dc) | Err e => Err e end).
+Proof. exact G_getDecryptCert_is_model. Qed.
+Print Assumptions C11_source_getDecryptCert_is_the_model.
+
+Theorem C11_source_SetSPKeyStore_is_the_model : forall c now ks,
+  G_SetSPKeyStore c now ks
+  = PVal (match set_sp_key_store c ks with Ok c' => (c', Ok tt) | Err e => (c, Err e) end).
+Proof. exact G_SetSPKeyStore_is_model. Qed.
+Print Assumptions C11_source_SetSPKeyStore_is_the_model.
